@@ -21,6 +21,7 @@ CONSTANTS
   Qs <- One1
   Vs <- K_V1
   As <- One0
+  QScales <- QS1
   Gravs <- K_G1
   DisSets <- NoDis
   TenK <- One0
@@ -30,6 +31,7 @@ CONSTANTS
   TenZero <- NoTz
   SpPairs <- NoSpS
   SpArms <- One0
+  Sleeps <- NoTz
   StiffPolys <- P00
   DampPolys <- P00
   TenKPolys <- P00
